@@ -240,8 +240,15 @@ func matchRunTable(st *matchState, t matchTable) {
 	for sweep := 0; sweep < 2; sweep++ {
 		for _, m := range st.hdr.Methods {
 			exp := map[int]int{}
+			if m == "HEAD" { // Router.Match resolves like a request: a HEAD lookup that selects nothing falls back to the GET routes
+				for _, h := range t.Hits["GET"] {
+					exp[h[0]] = h[1]
+				}
+			}
 			for _, h := range t.Hits[m] {
-				exp[h[0]] = h[1]
+				if h[1] != 0 {
+					exp[h[0]] = h[1]
+				}
 			}
 			for q := 1; q < len(st.paths); q++ {
 				path := st.paths[q]
